@@ -30,7 +30,8 @@ RULE = ('1-5 tasks (PickleCache and a custom two-file BaseCache format, dependen
         'labtech; in a third of the cases the same objects are re-executed with bust_cache=True in between (every entry and its meta is replaced; '
         'the later hit must carry the replaced meta). Engine "roundtrip": Cache.save / load_result_with_meta '
         'directly with generated ResultMeta (naive datetimes at microsecond resolution, durations 0..10 days). Non-trivial = >= 2 '
-        'cacheable tasks with different values AND a second run in a different process or backend. Distinct = hash of spec.')
+        'cacheable tasks with different values AND a second run in a different process or backend. Distinct = hash of spec. In a quarter of the rerun cases a session whose storage cannot be read '
+        'comes between the two runs (entries of executed tasks must survive its failed loads).')
 ASSUMPTIONS = ['values are compared with ==; stored values are distinct by construction so a foreign entry is visible']
 
 
